@@ -3,7 +3,7 @@ expression-bearing property is tracked by the context inspection)."""
 
 import ast
 
-from sa.core import AnalysisError, ClassRef, NotFoldable, Opaque, norm_src, unparse
+from sa.core import AnalysisError, ClassRef, NotFoldable, Opaque, norm_src, unparse, untag
 from sa.guards import callee_name, calls_in
 from sa.report import Finding, RuleResult
 
@@ -327,17 +327,52 @@ def rule_S5(ctx):
                         lst = getattr(blk, fld, None)
                         if isinstance(lst, list) and n in lst:
                             body = lst[lst.index(n) + 1:]
+                    # what is done to the value, whatever the locals are called and whether
+                    # it is written in place or in an (inlined) helper: the aliases of the
+                    # variable (copies and result temporaries), and every non-copy assignment
+                    # to an alias together with the kind of test it sits under
+                    aliases = {var}
+                    stmts_ = [x for s_ in (body or []) for x in ast.walk(s_)
+                              if isinstance(x, ast.Assign)]
+                    for _ in range(4):
+                        for x in stmts_:
+                            tn = [t.id for t in x.targets if isinstance(t, ast.Name)]
+                            if isinstance(x.value, ast.Name) and (
+                                    x.value.id in aliases or set(tn) & aliases):
+                                aliases |= set(tn) | {x.value.id}
+                            elif set(tn) & aliases:
+                                aliases |= set(tn)
+                            elif any(isinstance(y, ast.Name) and y.id in aliases
+                                     for y in ast.walk(x.value)) and any(
+                                         t.startswith("__ret") for t in tn):
+                                aliases |= set(tn)
+
+                    class _Canon(ast.NodeTransformer):
+                        def visit_Name(self, node):
+                            return ast.copy_location(ast.Name(
+                                id="_v" if node.id in aliases else node.id, ctx=node.ctx), node)
+                    import copy as _copy
                     norm = []
-                    for s in body or []:
-                        # alpha-normalised text: local names (incl. the tags the inlining
-                        # pass appends) do not matter, only the shape of the normalisation
-                        if isinstance(s, ast.If) and var in unparse(s.test) and "isinstance" in unparse(s.test):
-                            norm.append(norm_src(s) + " : " + " ; ".join(
-                                norm_src(b) for b in s.body) + (" else " + " ; ".join(
-                                    norm_src(b) for b in s.orelse) if s.orelse else ""))
-                        elif isinstance(s, ast.Assign) and any(
-                                isinstance(t, ast.Name) and t.id == var for t in s.targets):
-                            norm.append(norm_src(s))
+                    for x in stmts_:
+                        tn = [t.id for t in x.targets if isinstance(t, ast.Name)]
+                        if not (set(tn) & aliases):
+                            continue
+                        if isinstance(x.value, ast.Name) or (
+                                isinstance(x.value, ast.Constant) and x.value.value is None):
+                            continue
+                        under = "always"
+                        up_ = x
+                        while up_ is not None and up_ is not blk:
+                            par_ = getattr(up_, "_parent", None)
+                            if isinstance(par_, ast.If) and "isinstance" in unparse(par_.test) \
+                                    and any(a_ in unparse(par_.test) for a_ in aliases):
+                                arm = "then" if up_ in par_.body else "else"
+                                under = "%s %s" % (arm, norm_src(_Canon().visit(
+                                    ast.parse(unparse(par_.test), mode="eval").body)))
+                            up_ = par_
+                        val = _Canon().visit(ast.parse(unparse(x.value), mode="eval").body)
+                        norm.append(untag("%s: %s" % (under, norm_src(val))))
+                    norm = sorted(set(norm))
                     forms[m.qualname] = tuple(" ".join(x.split()) for x in norm)
     uses = sum(1 if prog.function(q).cls is tms else n_calls.get(prog.function(q).name, 0)
                for q in forms)
